@@ -1011,6 +1011,61 @@ func c02(run *ev.Run, tier string) {
 		}
 	}
 
+	// part 1e: a changelog file that is rewritten in place between two builds of
+	// the same process: the second package carries the new entries
+	{
+		chg := filepath.Join(dir, "rewritten-changelog.yaml")
+		entry := func(ver, note string) string {
+			return "- semver: \"" + ver + "\"\n  date: 2021-03-04T05:06:07Z\n  packager: \"P <p@example.com>\"\n  changes:\n    - note: \"" + note + "\"\n"
+		}
+		for _, f := range []string{"rpm", "deb"} {
+			_ = os.WriteFile(chg, []byte(entry("1.0.0", "first-entry-only")), 0o644)
+			s := base()
+			s.Changelog = chg
+			first := buildDecode(s, f, "changelog before rewrite")
+			_ = os.WriteFile(chg, []byte(entry("1.1.0", "added-after-the-first-build")+entry("1.0.0", "first-entry-only")), 0o644)
+			second := buildDecode(s, f, "changelog after rewrite")
+			run.Case("changelog-rewritten-in-place|"+f, true)
+			if first == nil || second == nil {
+				continue
+			}
+			var text string
+			if f == "rpm" {
+				text = strings.Join(second.Rpm.Hdr.StrList(dec.RpmTagChangelogText), "\n") + strings.Join(second.Rpm.Hdr.StrList(dec.RpmTagChangelogName), "\n")
+			} else if e := second.Find("/usr/share/doc/" + s.Name + "/changelog.Debian.gz"); e != nil {
+				if ms, err := dec.SplitGzip(e.Data); err == nil && len(ms) > 0 {
+					text = string(ms[0].Data)
+				}
+			}
+			atomic.AddInt64(&cmps, 1)
+			if !strings.Contains(text, "added-after-the-first-build") {
+				run.Violate("C02/"+f+"/changelog-stale-after-the-file-changed", map[string]any{"changelog_in_second_package": ev.Short(text, 300)})
+			}
+		}
+	}
+	// part 1f: values with a shape of their own: a folded multi-line custom deb
+	// field, relocation prefixes spelled with a trailing or doubled slash
+	{
+		s := base()
+		s.Deb.Fields.Set("X-Folded", "first line\n second line\n  third, indented")
+		if p := buildDecode(s, "deb", "folded custom field"); p != nil {
+			run.Case("deb-folded-custom-field", true)
+			atomic.AddInt64(&cmps, 1)
+			if v, ok := p.MetaGet("X-Folded"); !ok || v != "first line\nsecond line\n third, indented" {
+				run.Violate("C02/deb/custom-field/folded-value", map[string]any{"got": v, "present": ok, "configured": "first line\\n second line\\n  third, indented"})
+			}
+		}
+		s = base()
+		s.RPM.Prefixes = []string{"/opt/demo/", "/usr//local", "/srv/./x"}
+		if p := buildDecode(s, "rpm", "prefixes as spelled"); p != nil {
+			run.Case("rpm-prefixes-as-spelled", true)
+			atomic.AddInt64(&cmps, 1)
+			if got := p.Rpm.Hdr.StrList(dec.RpmTagPrefixes); strings.Join(got, "|") != strings.Join(s.RPM.Prefixes, "|") {
+				run.Violate("C02/rpm/prefixes", map[string]any{"got": got, "want": s.RPM.Prefixes})
+			}
+		}
+	}
+
 	// part 2: all combinations of optional version components
 	for mask := 0; mask < 32; mask++ {
 		v := verParts{V: "4.5.6"}
